@@ -149,7 +149,7 @@ impl C09 {
             dims.extend(std::iter::repeat(6).take(*l as usize));
             fams.add(&format!("lists of {} (time/length/mass/volume)", l), dims);
         }
-        fams.add("non-conformable member or value", vec![g, g, 4]);
+        fams.add("non-conformable member or value", vec![g, g, 4, NONCONF_VALS.len() as u64]);
         fams.add("near multiples: (k +- e) a -> a;b", vec![g, 6, 6, NEAR_K.len() as u64, 5]);
         fams.add("near multiples in the second stage: 1 a + (k +- e) b -> a;b;c", vec![big.len() as u64, 6, 6, 6, NEAR_K.len() as u64, 5]);
         fams.add("automatic duration breakdown", vec![durs.len() as u64]);
@@ -186,11 +186,13 @@ impl C09 {
             }
             let (a, b) = (&self.groups[d[0] as usize], &self.groups[d[1] as usize]);
             let (a0, a1, b0) = (regdump::q(&a.units[0].name), regdump::q(&a.units[1].name), regdump::q(&b.units[0].name));
+            // the value's magnitude plays no part in conformance: zero of the wrong dimension is refused too
+            let v = NONCONF_VALS[d[3] as usize];
             let q = match d[2] {
-                0 => format!("3 {} -> {};{};{}", a0, b0, a1, a0),
-                1 => format!("3 {} -> {};{};{}", a0, a0, b0, a1),
-                2 => format!("3 {} -> {};{};{}", a0, a0, a1, b0),
-                _ => format!("3 {} -> {};{}", b0, a0, a1),
+                0 => format!("{} {} -> {};{};{}", v, a0, b0, a1, a0),
+                1 => format!("{} {} -> {};{};{}", v, a0, a0, b0, a1),
+                2 => format!("{} {} -> {};{};{}", v, a0, a0, a1, b0),
+                _ => format!("{} {} -> {};{}", v, b0, a0, a1),
             };
             return Some((q, None, false));
         }
@@ -232,6 +234,7 @@ impl C09 {
 }
 
 const NEAR_K: [i64; 3] = [1, 3, 1000];
+const NONCONF_VALS: [&str; 3] = ["3", "0", "(5 - 5)"];
 
 fn rat_text(r: &Rat) -> String {
     let a = r.abs();
@@ -286,7 +289,7 @@ impl Space for C09 {
         Meta {
             id: "C09",
             level: "exploration",
-            rule: "for every dimensionality with >= 2 positive exact units, up to 6 units (largest, smallest, median, second smallest, a kilo-prefixed and a plural spelling): all ordered lists of length 2 and 3 with repetition x 11-13 rational values (0, +-1, +-1/3, +-7.5, +-1e-9, +-123456789.123, +-1e40); lists of length 4 (thorough 4-6) for time/length/mass/volume; every position of a non-conformable member and a non-conformable value; time values for the automatic year/week/day/hour/minute/second breakdown (67 fixed ones plus k x unit +- {0, 1e-9, 1/2, frac/2, frac} s for k in {1,2,10,1000} and every breakdown unit); near-multiple values (k +- e) a -> a;b for every group and ordered pair, k in {1,3,1000}, e in {half the fractional part of a's base-unit value, 1e-12}, and the same in the second stage of 3-unit lists (a quotient computed on truncated operands is off by one exactly there). Oracle: the statement's four clauses on raw part values with unit values from the registry dump. Non-trivial = a law was judged; distinct by query text".into(),
+            rule: "for every dimensionality with >= 2 positive exact units, up to 6 units (largest, smallest, median, second smallest, a kilo-prefixed and a plural spelling): all ordered lists of length 2 and 3 with repetition x 11-13 rational values (0, +-1, +-1/3, +-7.5, +-1e-9, +-123456789.123, +-1e40); lists of length 4 (thorough 4-6) for time/length/mass/volume; every position of a non-conformable member and a non-conformable value, for the values 3, 0 and (5 - 5); time values for the automatic year/week/day/hour/minute/second breakdown (67 fixed ones plus k x unit +- {0, 1e-9, 1/2, frac/2, frac} s for k in {1,2,10,1000} and every breakdown unit); near-multiple values (k +- e) a -> a;b for every group and ordered pair, k in {1,3,1000}, e in {half the fractional part of a's base-unit value, 1e-12}, and the same in the second stage of 3-unit lists (a quotient computed on truncated operands is off by one exactly there). Oracle: the statement's four clauses on raw part values with unit values from the registry dump. Non-trivial = a law was judged; distinct by query text".into(),
             assumptions: vec![
                 "negative-valued units (delisle_absolute, wire gauges g00..) are excluded: the sign clause is ill-posed for them".into(),
                 "any error kind counts as a refusal".into(),
